@@ -16,7 +16,9 @@ def run(ctx, rep, rid="R-C13-emitall"):
     if not hb:
         rep.error(rid, FN + " not found")
         return
-    b = hb[0]
+    # a helper of cli.rs that writes one diagnostic (`for d in diagnostics { emit_diagnostic(d, ..) }`) is part of the function
+    from vlib.inline import inlined
+    b = inlined(ctx.prog, hb[0])
     where = "%s:%d" % (b.f["file"], b.f["line"])
     fam = [b] + [cb for cb in ctx.prog.bodies.values() if cb.f["dk"] == "Closure" and cb.f.get("parent") == b.id]
     emits = [(bd, c) for bd in fam for c in bd.calls() if c.callee == "codespan_reporting::term::emit"]
